@@ -14,7 +14,7 @@ TRUSTED = [
 ]
 RULE = ("(read, write, connect) in {None, 0, 1 ns, 1 ms, 1 s, u64::MAX s}^3 x retries in {0, 1, 2, usize::MAX-1, usize::MAX} x construction path {new, Default, clap flags, serde}, "
         "clap flag texts from {absent, 0, 00, +0, 1, +7, 4, 18446744073709551615, 18446744073709551616, empty, x, 1.5, ' 3'}; each accepted setting is then used for a Valve query on a valid reply script "
-        "(and, for small retry counts, on a silent one); non-trivial = a zero duration or an extreme value is involved; distinct by case bytes")
+        "(and, for small retry counts, on a silent one; for the largest counts also on a script whose first attempt times out or fails to send); non-trivial = a zero duration or an extreme value is involved; distinct by case bytes")
 
 DURS = [None, (0, 0), (0, 1), (0, 1000000), (1, 0), (18446744073709551615, 0), (18446744073709551615, 999999999)]
 RETRIES = [0, 1, 2, 18446744073709551614, 18446744073709551615]
@@ -61,6 +61,17 @@ def gen_cases(tier, rng):
                               "meta": {"stream": "new" if tag == 0 else "serde", "expect": expect([rd, wr, co]), "valid": bool(evs),
                                        "extreme": retries > 2 or any(d is not None and (d[0] == 0 or d[0] > 1) for d in (rd, wr, co))}})
                 n += 1
+    # the largest retry counts with a first attempt that fails: the retry bookkeeping itself must not overflow
+    for retries in (1, 18446744073709551614, 18446744073709551615):
+        for fault in ("silent", "sendfail", "silent-twice"):
+            path = bytes([0]) + enc_dur((1, 0)) * 3 + retries.to_bytes(8, "big")
+            evs = ([None, None] if fault == "silent-twice" else [None] if fault == "silent" else []) + valid
+            if fault == "silent-twice" and retries == 1:
+                continue
+            hexcase = (bytes([18]) + path + port.to_bytes(2, "big") + enc_events(evs) + b"\x00\x00"
+                       + (bytes([1]) + (0).to_bytes(2, "big") if fault == "sendfail" else b"\x00")).hex()
+            cases.append({"id": "retry-%s/%d" % (fault, retries), "hex": hexcase,
+                          "meta": {"stream": "new", "expect": "accept", "valid": True, "extreme": True}})
     cases.append({"id": "default", "hex": settings_case(bytes([1]), port, valid), "meta": {"stream": "default", "expect": "accept", "valid": True, "extreme": False}})
     texts = TEXTS if tier != "quick" else TEXTS
     for c, rdt, wrt in itertools.product(texts, repeat=3):
